@@ -139,6 +139,31 @@ def run_case(case):
     return {"violations": vs, "rows": n, "index_sets": count}
 
 
+def index_sweep_case(case):
+    """index helpers for EVERY rotation-grid size in a range (the helpers depend on n_b and the number of positions only)"""
+    vs = []
+    count = 0
+    for n_b in case["ns"]:
+        try:
+            fg = FullGrid(f"randomQ_{n_b}", case["o"], case["t"])
+            n = len(fg)
+            pi_, qi_ = np.asarray(fg.get_position_index()), np.asarray(fg.get_quaternion_index())
+            full = np.arange(n)
+            sub = np.arange(n - 1, -1, -3)
+            ok = (fg.get_b_N() == n_b and np.array_equal(pi_, full // n_b) and np.array_equal(qi_, full % n_b)
+                  and np.array_equal(np.asarray(fg.get_position_index(sub)), sub // n_b)
+                  and np.array_equal(np.asarray(fg.get_quaternion_index(sub)), sub % n_b))
+        except Exception as e:
+            vs.append(viol(f"C09|index_sweep|n_b={n_b}|o={case['o']}|t={case['t']}|raises", f"{type(e).__name__}: {str(e)[:100]}", case))
+            continue
+        count += n
+        if not ok:
+            bad = np.nonzero(pi_ != full // n_b)[0] if pi_.shape == full.shape else [0]
+            vs.append(viol(f"C09|index_sweep|n_b={n_b}|o={case['o']}|t={case['t']}", "index helpers are not (n div n_b, n mod n_b); "
+                           f"first wrong row {int(bad[0]) if len(bad) else -1}", case))
+    return {"violations": vs[:5], "rows": count, "index_sets": 3 * len(case["ns"])}
+
+
 def cases(tier):
     if tier == "quick":
         bs = ["1", "cube4D_2", "cube4D_3", "cube4D_4", "cube4D_7", "randomQ_5"]
@@ -156,6 +181,11 @@ def cases(tier):
     for b, o in (("1", "ico_42"), ("cube4D_2", "randomS_20"), ("1", "cube3D_26")):
         out.append({"b": b, "o": o, "t": "linspace(0.2, 0.5, 10)", "radii_nm": [str(F(2, 10) + F(3, 90) * i) for i in range(10)]})
         out.append({"b": b, "o": o, "t": "linspace(0.1, 0.2, 4)", "radii_nm": [str(F(1, 10) + F(1, 30) * i) for i in range(4)]})
+    # irregular direction grids with many (direction, shell) pairs (per-shell copies of a direction differ by an ulp)
+    for b, o, t, tv in (("1", "randomS_50", "linspace(0.2, 1.1, 10)", [str(F(2, 10) + F(1, 10) * i) for i in range(10)]),
+                        ("1", "randomS_500", "[0.2, 0.3, 0.4]", ["0.2", "0.3", "0.4"]),
+                        ("cube4D_2", "randomS_120", "linspace(0.2, 0.5, 10)", [str(F(2, 10) + F(3, 90) * i) for i in range(10)])):
+        out.append({"b": b, "o": o, "t": t, "radii_nm": tv})
     # range() texts whose start is written with finer decimals than the step (and a default step of 1)
     for b, o in (("1", "ico_3"), ("cube4D_3", "cube3D_2")):
         out.append({"b": b, "o": o, "t": "range(0.25, 1.5, 0.5)", "radii_nm": ["0.25", "0.75", "1.25"]})
@@ -176,6 +206,10 @@ def run(ctx):
     rep = Report(PROPERTY, "exploration")
     cs = cases(ctx.tier)
     res = ctx.pmap(run_case, cs, chunksize=1, recheck=3)
+    # building a rotation grid costs ~N^2 (56 s at N = 260): every size to 112 in the quick tier, to 272 in the thorough one
+    top = 273 if ctx.thorough else 113
+    sw = [{"sweep": True, "ns": [n for n in range(1, top) if n % 32 == j], "o": "ico_3", "t": "[0.1,0.2]"} for j in range(32)]
+    res = res + ctx.pmap(index_sweep_case, sw, chunksize=1, recheck=1)
     for r in res:
         rep.add_violations(r["violations"])
     rep.coverage = {
@@ -186,11 +220,14 @@ def run(ctx):
                 "index helpers for None, every single index, every ordered pair (n<=40), prefixes, suffixes, strided "
                 "slices; decomposition; evaluations = rows + index sets; distinct_nontrivial = grids with >= 4 rows",
         "samples": collect_samples([f"{c['b']}/{c['o']}/{c['t']}" for c in cs], 5), "exhaustive": True,
-        "bound": {"n_b": "1..7" if ctx.tier == "quick" else "1..40", "n_o": "1..12" if ctx.tier == "quick" else "1..43"},
+        "bound": {"n_b": "1..7" if ctx.tier == "quick" else "1..40", "n_o": "1..12" if ctx.tier == "quick" else "1..43",
+                  "index_helper_sweep_n_b": "1..112" if ctx.tier == "quick" else "1..272"},
     }
     rep.assumptions = ["direction / rotation grids of the oracle come from separately constructed factory objects"]
     return rep
 
 
 def replay(case):
+    if case.get("sweep"):
+        return index_sweep_case(case)["violations"]
     return run_case(case)["violations"]
